@@ -25,7 +25,8 @@ from harness import c04
 
 STREAMS = ['recv-exhaustive', 'recv-random', 'recv-handshake', 'recv-malformed', 'sender-layout',
            'sender-callremote']
-THEOREMS = ['sender_layout', 'attribution', 'attribution_after_handshake']
+THEOREMS = ['sender_layout', 'attribution', 'attribution_after_handshake', 'attribution_callRemote',
+            'sender_calls_consistent', 'model_rules_match_source']
 TRUSTED_BASE = [
     'the message parser is an abstract parameter of the receiver model (raw message -> declared unix_fds, '
     'indices of its h arguments); the harness tabulates it by parsing each raw message with a probe list',
@@ -34,6 +35,9 @@ TRUSTED_BASE = [
     'the environment model (Consistent in Proto/Fds.lean): SCM_RIGHTS ordering, Twisted >= 17.1 sendFileDescriptor',
 ]
 ASSUMPTIONS = [
+    'the parser reads back from a message the unix_fds header field and the index values that _marshal wrote '
+    '(C01-C03 round trip); in Lean this is the hypothesis of msgOK_of_callRemote / attribution_callRemote',
+    'handshake cases are judged only when the implementation did authenticate (authentication is C06 / C07)',
     'descriptors of message i arrive in sending order, after those of earlier messages, each no later than the '
     'read that contains the last byte of message i; bytes arrive in order, cut arbitrarily',
     'the order that upstream marks unfixable (bytes of a message before its descriptors) is outside the property',
